@@ -7,6 +7,7 @@ shell functions they are defined from.  Other families (daun 1-3, basex, rbasex,
 defining integrals numerically by the check (quadrature oracle), not yet by theorems.
 -/
 import PyAbel.Lemmas.Abel
+import PyAbel.Lemmas.AbelRamp
 import PyAbel.Lemmas.RealInst
 import PyAbel.Props.C17
 
@@ -81,10 +82,108 @@ theorem rect_formula (j : ℕ) (r : ℝ) (hr : 0 ≤ r) :
     intro hm
     exact h ⟨le_trans (le_max_right _ _) hm.1, hm.2⟩
 
+/-! ### degree 1: the projected "hat" functions -/
+
+/-- the piecewise-linear (degree 1) basis function of pixel `j`: the triangle of half-width 1 centred at `j` -/
+noncomputable def hat (j : ℕ) (r : ℝ) : ℝ := max 0 (1 - |r - j|)
+
+/-- a hat is the second difference of ramps -/
+theorem hat_eq_ramps (j : ℕ) (r : ℝ) :
+    hat j r = ramp ((j : ℝ) + 1) r - 2 * ramp (j : ℝ) r + ramp ((j : ℝ) - 1) r := by
+  unfold hat ramp
+  rcases le_total r ((j : ℝ) - 1) with h1 | h1
+  · have e : |r - j| = j - r := by rw [abs_of_nonpos (by linarith)]; ring
+    rw [e, max_eq_left (by linarith), max_eq_right (by linarith), max_eq_right (by linarith), max_eq_right (by linarith)]
+    ring
+  · rcases le_total r (j : ℝ) with h2 | h2
+    · have e : |r - j| = j - r := by rw [abs_of_nonpos (by linarith)]; ring
+      rw [e, max_eq_right (by linarith), max_eq_right (by linarith), max_eq_right (by linarith), max_eq_left (by linarith)]
+      ring
+    · rcases le_total r ((j : ℝ) + 1) with h3 | h3
+      · rw [abs_of_nonneg (by linarith), max_eq_right (by linarith), max_eq_right (by linarith), max_eq_left (by linarith),
+          max_eq_left (by linarith)]
+        ring
+      · rw [abs_of_nonneg (by linarith), max_eq_left (by linarith), max_eq_left (by linarith), max_eq_left (by linarith),
+          max_eq_left (by linarith)]
+        ring
+
+theorem hat_zero_eq_ramp (r : ℝ) (hr : 0 ≤ r) : hat 0 r = ramp 1 r := by
+  unfold hat ramp
+  rw [Nat.cast_zero, sub_zero, abs_of_nonneg hr]
+
+/-- the coded antiderivative `P(R)[i] = y R − x² ln(y + R)` plus `x² ln x` is the Abel transform of the ramp `(R − r)₊` -/
+theorem abel_ramp_nat (R i : ℕ) :
+    Abel (ramp (R : ℝ)) i = if i < R then (daun1P R i : ℝ) + x2logx i else 0 := by
+  rw [abel_ramp _ _ (Nat.cast_nonneg R) (Nat.cast_nonneg i)]
+  have hiff : ((i : ℝ) < (R : ℝ)) ↔ i < R := Nat.cast_lt
+  by_cases h : i < R
+  · rw [if_pos (hiff.mpr h), if_pos h]
+    unfold daun1P x2logx
+    simp only [sqrt_real, log_real]
+    by_cases h0 : i = 0
+    · subst h0; simp
+    · rw [if_neg h0]; push_cast; ring
+  · rw [if_neg (fun hh => h (hiff.mp hh)), if_neg h]
+
+/-- **Daun degree 1**: `A[j, i]` is the Abel integral of the `j`-th hat function at pixel `i`, for all `i`, `j` -/
+theorem daun1_eq_abel (j i : ℕ) : (daun1 j i : ℝ) = Abel (hat j) i := by
+  rcases Nat.eq_zero_or_pos j with hj | hj
+  · subst hj
+    rw [abel_congr_nonneg (i : ℝ) (g := ramp 1) (fun r hr => hat_zero_eq_ramp r hr)]
+    have := abel_ramp_nat 1 i
+    rw [Nat.cast_one] at this
+    rw [this]
+    unfold daun1
+    by_cases h0 : i = 0
+    · subst h0; simp [x2logx]
+    · have : ¬ i < 1 := by omega
+      simp [this, h0, show ¬ i ≤ 0 by omega]
+  · have hcast : ((j - 1 : ℕ) : ℝ) = (j : ℝ) - 1 := by rw [Nat.cast_sub hj]; simp
+    have hcast1 : ((j + 1 : ℕ) : ℝ) = (j : ℝ) + 1 := by push_cast; ring
+    have e : ∀ r, 0 ≤ r → hat j r
+        = (ramp ((j + 1 : ℕ) : ℝ) r - 2 * ramp ((j : ℕ) : ℝ) r) + ramp ((j - 1 : ℕ) : ℝ) r := by
+      intro r _; rw [hcast, hcast1]; exact hat_eq_ramps j r
+    rw [abel_congr_nonneg (i : ℝ) e]
+    have i1 := losInt_ramp ((j + 1 : ℕ) : ℝ) i (Nat.cast_nonneg _)
+    have i2 := (losInt_ramp ((j : ℕ) : ℝ) i (Nat.cast_nonneg _)).const_mul 2
+    have i3 := losInt_ramp ((j - 1 : ℕ) : ℝ) i (Nat.cast_nonneg _)
+    have i12 : LosInt (fun r => ramp ((j + 1 : ℕ) : ℝ) r - 2 * ramp ((j : ℕ) : ℝ) r) i := i1.sub i2
+    rw [abel_add i12 i3, abel_sub i1 i2, abel_const_mul, abel_ramp_nat, abel_ramp_nat, abel_ramp_nat]
+    unfold daun1
+    rcases Nat.lt_trichotomy i j with hlt | heq | hgt
+    · by_cases h1 : i + 1 = j
+      · have a1 : i < j + 1 := by omega
+        have a3 : ¬ i < j - 1 := by omega
+        have a4 : ¬ i + 1 < j := by omega
+        have a5 : j - 1 = i := by omega
+        simp [a1, hlt, a3, a4, h1, hj, a5, hlt.le, hlt.ne]
+        ring
+      · have a1 : i < j + 1 := by omega
+        have a3 : i < j - 1 := by omega
+        have a4 : i + 1 < j := by omega
+        simp [a1, hlt, a3, a4, h1, hj, hlt.le, hlt.ne]
+        ring
+    · subst heq
+      have a1 : i < i + 1 := by omega
+      have a3 : ¬ i < i - 1 := by omega
+      simp [a1, a3, hj]
+    · have a1 : ¬ i < j + 1 := by omega
+      have a2 : ¬ i < j := by omega
+      have a3 : ¬ i < j - 1 := by omega
+      have a4 : ¬ i ≤ j := by omega
+      have a5 : ¬ i = j := by omega
+      have a6 : ¬ i + 1 < j := by omega
+      have a7 : ¬ i + 1 = j := by omega
+      simp [a1, a2, a3, a4, a5, a6, a7]
+
 /-! non-vacuity: the diagonal entry of the first off-axis pixel, W[1,1] = √5, is 2·√(1.5² − 1²) -/
 example : Abel (rect 1) 1 = 2 * (hc ((3 / 2 : ℝ) ^ 2 - 1 ^ 2) - hc ((1 / 2 : ℝ) ^ 2 - 1 ^ 2)) := by
   unfold rect
   rw [abel_shell _ _ _ (le_max_left _ _) (by norm_num)]
   norm_num
+
+/-! non-vacuity: on the axis the unit ramp projects to 1 (chord 1, mean height ½, both sides) -/
+example : Abel (ramp 1) 0 = 1 := by
+  rw [abel_ramp 1 0 (by norm_num) (le_refl 0)]; norm_num
 
 end PyAbel.C09
